@@ -532,7 +532,9 @@ func cmdCheck(args []string) {
 		}
 		// translator validation: replay the witness path natively and compare observations
 		if r.Witness != nil && !h.NoWitness && len(r.EngineErrors) == 0 {
-			out, err := nr.run(h.Pkg, h.Fn, r.Witness.ND, false, 120*time.Second, "witness_"+h.Fn)
+			// a witness through a Par block is replayed under the deterministic scheduler (real goroutines would
+			// pick their own interleaving)
+			out, err := nr.runMode(h.Pkg, h.Fn, r.Witness.ND, false, hasKind(r.Witness.ND, "sched"), pre, 120*time.Second, "witness_"+h.Fn)
 			if err != nil {
 				fail2(err.Error())
 			} else {
